@@ -404,7 +404,7 @@ pub fn edges_for(prop: Prop, tier: Tier, r: &dyn Runner, st: &St) -> Vec<Edge> {
             if !matches!(r.backend(), crate::caps::BK::Stack | crate::caps::BK::StackN) {
                 let len = st.len as usize;
                 for a in 0..=len { for b in a..=len { for rn in 0..=3u8 { for lie in [-2i8, -1, 1, 2] { for api in [Api::Erased, Api::Typed] {
-                    for pat in [Pat::none(), Pat { n: 1, bits: 1 }] {
+                    for pat in [Pat::none(), Pat { n: 1, bits: 0 }, Pat { n: 1, bits: 1 }, Pat { n: 2, bits: 0b10 }, Pat { n: 2, bits: 0 }] {
                         v.push(Edge::Splice { api, a: a as u8, b: b as u8, form: Form::Excl, pat, sink: Sink::Drop, rn, rsrc: RSrc::W, lie });
                     }
                     if api == Api::Erased && r.elem_size() != 0 { v.push(Edge::Splice { api, a: a as u8, b: b as u8, form: Form::Excl, pat: Pat::none(), sink: Sink::Drop, rn, rsrc: RSrc::R, lie }); }
